@@ -117,3 +117,38 @@ func VHDevMutexCopy() {
 	c.mu.Unlock()
 	vCover("mutex copy done")
 }
+
+// VHDevRepanic: a deferred call that recovers and panics again (or panics for the first time
+// while another panic unwinds) replaces the panic in flight; outer deferred calls still run.
+func VHDevRepanic() {
+	order := ""
+	got := any(nil)
+	func() {
+		defer func() { got = recover() }()
+		defer func() { order += "outer;" }()
+		func() {
+			defer func() {
+				if p := recover(); p != nil {
+					order += "inner;"
+					panic("again")
+				}
+			}()
+			panic("first")
+		}()
+		order += "unreachable;"
+	}()
+	vAssert(order == "inner;outer;", "repanic: deferred calls run innermost first, code after the call is skipped")
+	vAssert(got == any("again"), "repanic: the second panic replaces the first")
+	var arr []int
+	got = nil
+	func() {
+		defer func() { got = recover() }()
+		defer func() { _ = arr[3] }() // runtime panic while "x" unwinds
+		panic("x")
+	}()
+	_, isStr := got.(string)
+	vAssert(got != nil && !isStr, "repanic: a runtime panic in a deferred call replaces the panic in flight")
+	e, isErr := got.(error)
+	vAssert(isErr && len(e.Error()) > 15 && e.Error()[:15] == "runtime error: ", "repanic: run-time panics carry a runtime.Error")
+	vCover("repanic done")
+}
